@@ -128,6 +128,7 @@ func mapGlobalSecondaryIndexDescriptionToDynamodb(input []types.GlobalSecondaryI
 	for i, gs := range input {
 		gsi[i] = &dynamodb.GlobalSecondaryIndexDescription{
 			IndexName: gs.IndexName,
+			ItemCount: aws.Int64(gs.ItemCount),
 			Projection: &dynamodb.Projection{
 				NonKeyAttributes: gs.Projection.NonKeyAttributes,
 				ProjectionType:   gs.Projection.ProjectionType,
